@@ -71,7 +71,8 @@ def records_for(segs, walk, qprefix, spans=None):
             L = pe - ps
             cg, a = cigar_for(L)
             name = f"{qprefix}_{ps}_{pe}"
-            out.append(f"{name}\t{L + 2}\t1\t{L + 1}\t+\t{path}\t{plen}\t{ps}\t{pe}\t{a}\t{L}\t{(ps * 7 + pe) % 61}\t{EXTRA[0]}\tcg:Z:{cg}\t{EXTRA[1]}\t{EXTRA[2]}")
+            cgf = f"cg:Z:{cg}\t" if (ps + 2 * pe) % 5 else ""       # the CIGAR is an optional field: one record in five has none
+            out.append(f"{name}\t{L + 2}\t1\t{L + 1}\t+\t{path}\t{plen}\t{ps}\t{pe}\t{a}\t{L}\t{(ps * 7 + pe) % 61}\t{EXTRA[0]}\t{cgf}{EXTRA[1]}\t{EXTRA[2]}")
     return out
 
 
